@@ -95,6 +95,9 @@ def gen_session(rng, tier, for_crash=False):
             title = str(rng.randint(0, 500))           # a title that looks like an atom count
         elif rng.random() < 0.04:
             title = rng.choice([" ", "\t", "   "])     # blank but not empty
+        elif rng.random() < 0.08:
+            # characters that take more than one byte in the file
+            title = title[:len(title) // 2] + rng.choice(["\u03c3 = 0.34 nm", "\u00c5", "\u03b5\u03b5", "caf\u00e9 \u2013 25 \u00b0C"]) + title[len(title) // 2:]
     box = None
     kind = rng.choice(["none", "vec", "diag", "tric", "tric", "vec"])
     if kind == "vec":
